@@ -147,23 +147,24 @@ def mk_unit(be, tls, tier, table_ops=True):
     lifecycle = [('impl_destroy_sandbox', 's.destroy_sandbox();', '$ROOT(&be);')]
     if be == 'noop':
         lifecycle.append(('impl_create_sandbox', 's.create_sandbox();', '$ROOT(&be);'))
-    # (the dylib backend's impl_create_sandbox is not under contract: its failure path builds a diagnostic std::string with
-    # operator+=, for which there is no model - a change there that clears the slot table is not seen, seeded/W184)
+    else:
+        lifecycle.append(('impl_create_sandbox', 's.create_sandbox("lib");', '$ROOT(&be, "lib");'))
     for fnm, expr, call in lifecycle:
         cl = [('obj', '__CPROVER_requires(__CPROVER_rw_ok($this, sizeof(struct %s)))' % BS),
               ('slot_table_untouched', '__CPROVER_ensures(%s)' % conj(lambda i: '(%s == __CPROVER_old(%s) && %s == __CPROVER_old(%s))' % (K(i), K(i), C(i), C(i)))),
               ('frame', '__CPROVER_assigns(__CPROVER_object_whole($this))')]
-        h = '  struct %s be;\n  %s\n' % (BS, call)
+        h = '  struct %s be; g_noabort = 0;\n  %s\n' % (BS, call)
         pick = lambda tu, fn, fnm=fnm: find_func(tu, fnm, 'rlbox::' + cls)
         insts.append(Inst('c12_%s_%s_%s_keeps_slot_table' % (be, tls, fnm), 'rlbox_sandbox<%s>& s' % cls, expr, cl, h, leaves=['dynamic_check'], prop=PROP, root_name=fnm, tier=tier,
                           pre=PRE_GHOST + (' int dlclose(void *handle)\n__CPROVER_requires(1)\n__CPROVER_ensures(1)\n__CPROVER_assigns();\n'
                                            ' void *dlopen(const char *path, int flags)\n__CPROVER_requires(1)\n__CPROVER_ensures(1)\n__CPROVER_assigns();\n'
                                            ' char *dlerror(void)\n__CPROVER_requires(1)\n__CPROVER_ensures(1)\n__CPROVER_assigns();\n'), root_pick=pick,
-                          opts={'extern_functions': ('dlclose', 'dlopen', 'dlerror')}, extra_replace=['dlclose', 'dlopen', 'dlerror'],
+                          post_protos='struct M_string vstd_string_cstr(const char *s)\n__CPROVER_requires(1)\n__CPROVER_ensures(__CPROVER_return_value.src == s)\n__CPROVER_assigns();\n' if fnm == 'impl_create_sandbox' and be != 'noop' else '',
+                          opts={'extern_functions': ('dlclose', 'dlopen', 'dlerror'), 'diag_strings': True}, extra_replace=['dlclose', 'dlopen', 'dlerror', 'vstd_string_cstr'],
                           note='frame of a backend life-cycle function over the 64-slot table'))
     if not table_ops:
         # register/unregister do not touch the per-thread record: TLS-independent, verified once per backend
-        insts = [it for it in insts if not (it.name.endswith('_register') or it.name.endswith('_unregister') or it.name.endswith('_keeps_slot_table'))]
+        insts = [it for it in insts if not (it.name.endswith('_register') or it.name.endswith('_unregister') or (it.name.endswith('_keeps_slot_table') and not (be == 'dylib' and tls == 'lib')))]   # the dylib life-cycle frames stay in the quick tier (seeded/W184)
     defines = ['RLBOX_SINGLE_THREADED_INVOCATIONS']
     extra = B['extra']
     if tls == 'embedder':
@@ -241,7 +242,7 @@ def units(tier):
 
 
 ASSUMPTIONS = [
-    'the dylib backend\'s impl_create_sandbox (dlopen and a diagnostic string built with std::string operator+= on the failure path) is NOT under contract: a change there that touches the slot table is not seen (seeded/W184); its other life-cycle and dispatch functions are',
+    'the dylib backend\'s impl_create_sandbox builds a diagnostic std::string on its failure path: modelled as M-str (opt diag_strings: operator+= leaves the modelled string unchanged, c_str() is its pointer; the content of a diagnostic message is in no contract); dlopen / dlerror / dlclose are stubs',
     'sequential semantics: thread_local records are one global per thread (M-lock, single thread); cross-thread interference is C18 (not claimed)',
     'calls through function pointers are recording stubs: the callee behaves arbitrarily but returns; which pointer was called and with what is recorded',
     'L-dtor: the scope_exit guard\'s destructor runs at the return of impl_invoke_with_func_ptr (C++ scope-exit order assumed); exits by exception are modelled by L-throw (instances *_invoke_restores_on_exceptional_exit: the sandboxed function may throw, the lowered scope_exit destructor runs where unwinding would run it, the previous executing sandbox is restored)',
